@@ -280,11 +280,12 @@ func (ex *Exec) invoke(fr *frame, st *State, reach *Term, c *ssa.CallCommon, rec
 		ex.unsupportedAt(instr, fmt.Sprintf("invoke on %T", recv))
 	}
 	nonnil := Not(Eq(rt, IntLit(0)))
-	if ex.safety {
+	it := types.Unalias(c.Value.Type())
+	if ex.safety && ex.eng.ifaceEffect(it, c.Method.Name()) != effNoop {
+		// (package-level loggers are initialised at package init; calls on them are not checked)
 		ex.safeOblige(fr, reach, nonnil, "nil-invoke", instr)
 	}
 	ex.vc.Assume(reach, nonnil)
-	it := types.Unalias(c.Value.Type())
 	key := ifaceKey(it, c.Method.Name())
 	if fc, ok := ex.eng.cs.Ifaces[key]; ok {
 		return ex.applyIfaceContract(fr, st, reach, c, fc, rt, args, instr)
